@@ -227,3 +227,47 @@ fn iter_prefixes<const L: usize>(tag: u8, opt: Option<u8>) {
 
 // @harness name=c10_iter_cut_commit prop=C10 tier=quick timeout=1500
 rec_proof! { unwind = 20, fn c10_iter_cut_commit() { iter_prefixes::<14>(2, None); } }
+
+// L3 over several scan blocks (block size 8 through the from_elem stub, see
+// stubs::vec_from_elem_block8): a 20-byte tail = blocks of 8 + 8 + 4 bytes, all
+// bytes symbolic: the verdict is "all zero" iff every byte of every block is
+// zero (a damaged record in front of a zero-filled tail is not a zero tail).
+// @harness name=c09_trailing_zeros_blocks prop=C09 tier=quick timeout=1200
+#[kani::proof]
+#[kani::unwind(24)]
+#[kani::stub(crc32fast::Hasher::new, stubs::crc_new)]
+#[kani::stub(alloc::fmt::format, stubs::fmt_format)]
+#[kani::stub(core::fmt::write, stubs::fmt_write)]
+#[kani::stub(<core::io::CustomOwner as core::ops::Drop>::drop, stubs::custom_owner_drop)]
+#[kani::stub(<std::io::Error as core::fmt::Display>::fmt, stubs::io_error_display)]
+#[kani::stub(<std::io::Error as core::fmt::Debug>::fmt, stubs::io_error_display)]
+#[kani::stub(std::fs::File::metadata, stubs::file_metadata)]
+#[kani::stub(std::fs::Metadata::len, stubs::metadata_len)]
+#[kani::stub(<std::fs::File as std::os::unix::fs::FileExt>::read_at, stubs::file_read_at)]
+#[kani::stub(alloc::vec::from_elem, stubs::vec_from_elem_block8)]
+fn c09_trailing_zeros_blocks() {
+    const N: usize = 20;
+    let f = ghost_file(N as u64);
+    let mut all_zero = true;
+    let mut i = 0;
+    while i < N {
+        let b: u8 = kani::any();
+        gfs::bytes(0)[i] = b;
+        if b != 0 {
+            all_zero = false;
+        }
+        i += 1;
+    }
+    let r = Chunk::<KTypes>::verify_trailing_zeros(f, 0, ChunkId(0));
+    match r {
+        Ok(z) => {
+            assert!(z == all_zero, "verify_trailing_zeros disagrees with the file content across scan blocks");
+            kani::cover!(z, "zero tail spanning three blocks");
+            kani::cover!(!z, "non-zero byte somewhere in three blocks");
+        }
+        Err(e) => {
+            core::mem::forget(e);
+            assert!(false, "verify_trailing_zeros failed although offset <= file size");
+        }
+    }
+}
